@@ -6,6 +6,9 @@ package h6net
 import (
 	"crypto/sha1"
 	"fmt"
+	"os"
+	"runtime"
+	"runtime/debug"
 	"sort"
 	"strings"
 	"time"
@@ -87,6 +90,9 @@ func try(f func()) (res string) {
 			res = fmt.Sprint(e)
 			if res == "" {
 				res = "panic"
+			}
+			if _, ok := e.(runtime.Error); ok && os.Getenv("VERIF_DEBUG_STACK") != "" {
+				fmt.Fprintf(os.Stderr, "runtime error: %v\n%s\n", e, debug.Stack())
 			}
 		}
 	}()
@@ -384,7 +390,12 @@ func (sd *side) do(o sessOp, table string, bigval string) (res string) {
 			if row == nil {
 				tbl = ""
 			}
-			res = rowStr(row, hdr) + "@" + tbl
+			if o.dir == core.Any {
+				// the answer is a placeholder row that only says "exists"
+				res = fmt.Sprint("exists=", row != nil)
+			} else {
+				res = rowStr(row, hdr) + "@" + tbl
+			}
 		case "end":
 			if sd.tran == nil {
 				res = "skip"
